@@ -81,20 +81,24 @@ func register(c Check) { checks[c.ID()] = c }
 // ---- replay files ----
 
 type ReplayFile struct {
-	Property  string     `json:"property"`
-	Phase     string     `json:"phase"`
-	Race      bool       `json:"race_binary"`
-	Sweep     bool       `json:"sweep,omitempty"`
-	VerifSeed uint64     `json:"verif_seed"`
-	Index     uint64     `json:"run_index"`
-	RunSeed   uint64     `json:"run_seed"`
-	Tape      []uint64   `json:"tape"`
-	TapeFull  int        `json:"tape_len_before_shrink"`
-	Shrunk    int        `json:"shrink_executions"`
-	Violation Violation  `json:"violation"`
-	EventHash string     `json:"event_hash"`
-	Desc      any        `json:"run"`
-	Note      string     `json:"note,omitempty"`
+	Property  string `json:"property"`
+	Phase     string `json:"phase"`
+	Race      bool   `json:"race_binary"`
+	Sweep     bool   `json:"sweep,omitempty"`
+	VerifSeed uint64 `json:"verif_seed"`
+	Index     uint64 `json:"run_index"`
+	RunSeed   uint64 `json:"run_seed"`
+	// Prelude: run indices (space separated) executed first, in this order and
+	// regenerated from their seeds, in the same fresh process. Used when the
+	// violation depends on state left by earlier runs of the process (C13).
+	Prelude   string    `json:"prelude_run_indices,omitempty"`
+	Tape      []uint64  `json:"tape"`
+	TapeFull  int       `json:"tape_len_before_shrink"`
+	Shrunk    int       `json:"shrink_executions"`
+	Violation Violation `json:"violation"`
+	EventHash string    `json:"event_hash"`
+	Desc      any       `json:"run"`
+	Note      string    `json:"note,omitempty"`
 }
 
 func writeJSON(path string, v any) error {
@@ -124,6 +128,7 @@ func readJSON(path string, v any) error {
 // ---- worker output ----
 
 type WorkerViolation struct {
+	ChunkFrom uint64    `json:"chunk_from"`
 	Index     uint64    `json:"index"`
 	RunSeed   uint64    `json:"run_seed"`
 	Violation Violation `json:"violation"`
